@@ -24,8 +24,69 @@ def obs_line(ln):
             [ln.amp.real, ln.amp.imag, ln.err.real, ln.err.imag, bool(ln.fix)], [obs_line(d) for d in ln.daughters]]
 
 
+LARK_ERRORS = ("UnexpectedCharacters", "UnexpectedToken", "UnexpectedEOF", "UnexpectedInput")
+
+
+_FRONT = {}
+
+
+def lark_front(text, grammar):
+    """the tree Lark builds for the text with data/ampgen.lark and NO transformer, in the JSON form of coq/Amp/Text.vtext"""
+    from lark import Lark, Tree
+    from lark.exceptions import UnexpectedInput
+    if "parser" not in _FRONT:
+        _FRONT["parser"] = Lark(grammar, parser="lalr")
+    try:
+        tree = _FRONT["parser"].parse(text)
+    except UnexpectedInput:
+        return {"err": "UnexpectedInput"}
+
+    def tok1(t):
+        (x,) = t.children
+        return str(x)
+
+    def dtree(d):
+        ch = d.children
+        name, sp, ls, sub = tok1(ch[0]), None, None, []
+        for x in ch[1:]:
+            if x.data == "subdecay":
+                sub += [dtree(y) for y in x.children]
+            elif x.data == "decaytype":
+                for y in x.children:
+                    if y.data == "spinfactor":
+                        sp = tok1(y)
+                    elif y.data == "lineshape":
+                        ls = tok1(y)
+        return [name, sp, ls, sub]
+
+    def fc(t):
+        a, b, c = t.children
+        return [tok1(a), str(b), str(c)]
+    out = []
+    for ln in tree.children:
+        assert isinstance(ln, Tree), ln
+        d, ch = ln.data, ln.children
+        if d == "event_type":
+            out.append(["event", [tok1(x) for x in ch]])
+        elif d == "cplx_decay_line":
+            out.append(["cplx", dtree(ch[0]), fc(ch[1]), fc(ch[2])])
+        elif d == "constant":
+            out.append(["const", tok1(ch[0]), str(ch[1])])
+        elif d == "variable":
+            out.append(["var", tok1(ch[0]), tok1(ch[1]), str(ch[2]), str(ch[3])])
+        elif d == "options" and ch[0].data == "fast_coherent_sum":
+            out.append(["fcs", tok1(ch[0])])
+        elif d in ("options", "cart_decay_line", "invert_line"):
+            out.append(["other"])
+        else:
+            raise AssertionError(d)
+    return out
+
+
 def impl_main(mode, fin, fout):
+    from decaylanguage import data
     from decaylanguage.modeling.amplitudechain import AmplitudeChain
+    grammar = data.basepath.joinpath("ampgen.lark").read_text()
     cases = json.loads(Path(fin).read_text())
     out = []
     for c in cases:
@@ -37,9 +98,66 @@ def impl_main(mode, fin, fout):
                    [[str(n), float(r["value"])] for n, r in consts.iterrows()],
                    [obs_line(l) for l in lines], None, [str(l) for l in lines]]
         except Exception as e:
-            res = {"err": type(e).__name__}
-        out.append(res)
+            n = type(e).__name__
+            res = {"err": "UnexpectedInput" if n in LARK_ERRORS else n}
+        out.append([res, lark_front(c["text"], grammar)])
     Path(fout).write_text(json.dumps(out))
+
+
+def ast_json(opt):
+    """the generator's option file in the JSON form of coq/Amp/Text.vtext (comments and blank lines leave no trace)"""
+    out = []
+    for ln in opt:
+        k = ln[0]
+        if k == "event":
+            out.append(["event", list(ln[1])])
+        elif k == "cplx":
+            out.append(["cplx", ln[1], list(ln[2]), list(ln[3])])
+        elif k == "const":
+            out.append(["const", ln[1], ln[2]])
+        elif k == "var":
+            out.append(["var", ln[1], ln[2], ln[3], ln[4]])
+        elif k == "fcs":
+            out.append(["fcs", ln[1]])
+    return out
+
+
+def text_variants(rng, opt):
+    """spellings and malformations of a rendered option file: (kind, text).  The model and Lark must agree on accept / reject and on
+    the tree; what the text "should" mean is not assumed here."""
+    base = ampgen_gen.render(opt)
+    lines = base.split("\n")[:-1]
+    out = []
+
+    def join(ls, nl="\n", last=True):
+        return nl.join(ls) + (nl if last else "")
+    out.append(("crlf", join(lines, "\r\n")))
+    out.append(("no final newline", join(lines, last=False)))
+    out.append(("no final newline, comment", join(lines, last=False) + "  # end"))
+    out.append(("blank / indented / tabbed", "\n  \n" + "".join(("\t " if rng.random() < 0.4 else "") + l.replace("   ", " \t  ") + "\n" + ("\n   \n" if rng.random() < 0.3 else "") for l in lines)))
+    out.append(("spaces around punctuation", join([l.replace("{", " { ").replace(",", " , ").replace("}", " } ").replace("[", " [ ").replace("]", " ] ").replace(";", " ; ") for l in lines])))
+    out.append(("only comments", "# a\n# b\n"))
+    out.append(("empty", ""))
+    idx = [i for i, l in enumerate(lines) if l and not l.startswith("#")]
+    if idx:
+        i = rng.choice(idx)
+        w = lines[i].split()
+        for kind, repl in (("a column removed", " ".join(w[:-1])), ("a column added", " ".join(w + ["0.5"])), ("a word column", " ".join(w[:-1] + ["abc"])),
+                           ("tag without sub-decay", w[0].split("{")[0] + "[D] " + " ".join(w[1:])),
+                           ("bare particle, six numbers", w[0].split("{")[0].split("[")[0] + " 0 1 2 0 3 4"),
+                           ("bare particle, three numbers", w[0].split("{")[0].split("[")[0] + " 0 1 2"),
+                           ("single colon", w[0].split("{")[0].split("[")[0] + ":x 1"),
+                           ("carriage return inside", w[0] + "\r " + " ".join(w[1:]))):
+            out.append((kind, join(lines[:i] + [repl] + lines[i + 1:])))
+    extra = ["Output \"out.root\"", "nEvents 1000", "K(1)(1270)bar- = K(1)(1270)+", "rho(770)0{pi+,pi-} 2 1 0",
+             "D0[S;P]{K-,pi+} 0 1 0 0 1 0", "D0[D;S]{K-,pi+} 0 1 0 0 1 0", "D0[GSpline.EFF;FOCUS.Kpi]{K-,pi+} 0 1 0 0 1 0", "D0[SBW]{K-,pi+} 0 1 0 0 1 0",
+             "D0[P;BW.x]{K-,pi+} +1 -.5 1e3 0 1. 2E-2", "EventType D0", "EventType", "2 3", "FastCoherentSum::UseCartesian x", "nEvents -1",
+             "D0{K-,pi+,pi-} 0 1 0 0 1 0", "D0{K-} 0 1 0 0 1 0", "EventType Output nEvents", "Output 1", "nEvents{K-,pi+} 0 1 0 0 1 0", "x::y 1", "x:::y 1",
+             "a'*+-() 1", "a.b 1", "D0{K-[S],pi+} 0 1 0 0 1 0", "D0{K-[S]{pi+,pi-},pi+} 0 1 0 0 1 0", "D0 {K-,pi+} 0 1 0 0 1 0", "D0{K-,pi+}0 1 0 0 1 0", "D0{K-,pi+ 0 1 0 0 1 0", "D0[]{K-,pi+} 0 1 0 0 1 0", "D0[S{K-,pi+} 0 1 0 0 1 0"]
+    for e in rng.sample(extra, 9):
+        pos = rng.randint(1, len(lines))
+        out.append(("line: " + e, join(lines[:pos] + [e] + lines[pos:])))
+    return out
 
 
 def close(a, b):
@@ -70,6 +188,10 @@ def cmp_tree(it, mt):
 
 
 def agree(iv, mv):
+    if isinstance(mv, dict) and mv.get("err") == "UnexpectedInput" and isinstance(iv, dict):
+        # the model says the text is not in the grammar: any exception of the implementation is a rejection (with the transformer
+        # running inside the LALR parser, a callback can raise before Lark reports the syntax error)
+        return True
     if isinstance(iv, dict) or isinstance(mv, dict):
         return iv == mv or (isinstance(iv, dict) and isinstance(mv, dict) and {iv["err"], mv["err"]} <= {"ParticleNotFound", "ParticleNotFound"})
     ev, pars, consts, lines, cart, _strs = iv
@@ -143,7 +265,10 @@ def main():
     tr = tr_amp.main()
     ck.notes["name_resolution"] = tr["names"]
     ck.proofs("Props/C17.v", extra_trusted=[
-        "PARTIAL front end: the AmpGen lexer/LALR parser (ampgen.lark) is not modelled; py/ampgen_gen.py renders option files to text",
+        "front end: coq/Amp/Text.v is a hand-written model of ampgen.lark as Lark's contextual lexer + LALR driver + AmpGenTransformer read it "
+        "(words classified whole; words the lexer would cut in two are outside the domain), tied by comparing its reading of every text of the run "
+        "(generated files, spellings, malformations, the shipped model) with the tree Lark builds without transformer, and the whole pipeline "
+        "text -> amplitudes with read_ampgen",
         "particle_from_string_name (fuzzy AmpGen-name lookup) is data: its answers for the name pool are regenerated by py/tr_amp.py",
         "numpy.exp / cos / sin: the model keeps couplings as exact (magnitude, phase) pairs; the harness compares with cmath to 1e-13",
         "hand-written model coq/Amp/Read.v tied by correspondence"])
@@ -159,14 +284,43 @@ def main():
             if rng.random() < 0.03:
                 opt = [ln for ln in opt if ln[0] != "event"]
             cases.append({"opt": opt, "text": ampgen_gen.render(opt), "cart0": rng.random() < 0.2})
-    impl = vlib.run_impl("c17.py", cases, nshards=16)
+    # spellings / malformations of some of the files, and the shipped model: front end only adds cases, same comparison
+    nbase = len(cases)
+    if not args.replay:
+        for c in list(cases[:5 if args.tier == "quick" else 120]):
+            if not any(l[0] == "event" for l in c["opt"]):
+                continue
+            for kind, text in text_variants(rng, c["opt"]):
+                cases.append({"opt": None, "variant_of": c["opt"], "kind": kind, "text": text, "cart0": c["cart0"]})
+        cases.append({"opt": None, "kind": "models/DtoKpipipi_v2.txt", "text": (vlib.REPO / "models" / "DtoKpipipi_v2.txt").read_text(), "cart0": False})
+    both = vlib.run_impl("c17.py", cases, nshards=16)
+    impl = [b[0] for b in both]
+    front = [b[1] for b in both]
     pre = "Definition pid_of (n : string) : option Z := pd_get n amp_names."
-    terms = [f"vrres (read_ampgen pid_of 40 {cbool(c['cart0'])} {ampgen_gen.coq_optfile(c['opt'])})" for c in cases]
-    model = vlib.run_model("C17", ["Lib.PyDict", "Gen.GenAmp", "Amp.Syntax", "Amp.Read"], "fun v : val => v", terms, shard=60, preamble=pre)
+    from vlib import cstr
+    terms = [("(let r := parse_text " + cstr(c["text"]) + " in VList [vtext r; match r with Some f => vrres (read_ampgen pid_of 40 "
+              + cbool(c["cart0"]) + " f) | None => VErr \"UnexpectedInput\" end])") for c in cases]
+    both_m = vlib.run_model("C17", ["Lib.PyDict", "Gen.GenAmp", "Amp.Syntax", "Amp.Read", "Amp.Text"], "fun v : val => v", terms, shard=25, preamble=pre)
+    mfront = [m[0] for m in both_m]
+    model = [m[1] for m in both_m]
+    # (1) text -> result, model vs implementation
     diffs = [i for i, (a, b) in enumerate(zip(impl, model)) if not agree(a, b)]
-    ck.cov["evaluations"] += len(cases)
-    ck.cov["traces_validated_against_impl"] += len(cases) - len(diffs)
+    # (2) the front end alone: the model's reading of the text vs the tree Lark builds (no transformer), and vs the generator's file
+    fdiffs = [i for i, (a, b) in enumerate(zip(front, mfront)) if a != b]
+    gdiffs = [i for i, c in enumerate(cases) if c["opt"] is not None and mfront[i] != ast_json(c["opt"])]
+    ck.cov["evaluations"] += 2 * len(cases)
+    ck.cov["traces_validated_against_impl"] += 2 * len(cases) - len(diffs) - len(fdiffs)
+    ck.notes["front_end"] = {"texts": len(cases), "generated files": nbase, "spellings / malformations / shipped model": len(cases) - nbase,
+                             "rejected by both": sum(1 for a, b in zip(front, mfront) if isinstance(a, dict) and isinstance(b, dict)),
+                             "model tree differs from Lark's": len(fdiffs), "model tree differs from the generator's file": len(gdiffs),
+                             "kinds": sorted({c.get("kind", "generated").split(":")[0] for c in cases})}
+    for i in fdiffs + gdiffs:
+        if i not in diffs:
+            diffs.append(i)
     ck.cov["distinct_nontrivial"] = len({c["text"] for c, v in zip(cases, impl) if isinstance(v, list) and len(v[3]) > 1})
+    for c in cases:
+        if c["opt"] is None:
+            c["opt"] = c.get("variant_of") or []
     ck.cov["rule"] = ("event type D0 -> K- pi+ pi+ pi- (repeated pi+); 1..6 lines of the mother (two-resonance and cascade topologies, "
                       "bare or written-out resonances), 0..3 separate lines per bare resonance down to depth 3, spin tags S/P/D, FOCUS / "
                       "kMatrix / GSpline lineshape tags, comments and blank lines, 0..6 parameter and 0..4 constant lines, coherent-sum "
@@ -177,7 +331,16 @@ def main():
                                 "max_amplitudes": max([len(v[3]) for v in impl if isinstance(v, list)] or [0]),
                                 "with_fcs": sum(1 for c in cases if any(l[0] == "fcs" for l in c["opt"]))}
     hits = []
+    # a text Lark's grammar accepts must be read without an internal error (whatever the model says)
+    for i, (c, iv, fr) in enumerate(zip(cases, impl, front)):
+        if isinstance(iv, dict) and isinstance(fr, list) and iv["err"] not in ("UnexpectedInput", "ParticleNotFound", "ValueError:event", "MatchingIDNotFound"):
+            has_event = sum(1 for l in fr if l[0] == "event") == 1
+            if has_event:
+                hits.append(({"text": c["text"], "cart0": c["cart0"], "opt": c["opt"] or []},
+                             "a text in the options grammar raises " + iv["err"] + " (internal error)"))
     for i in diffs[:30]:
+        if cases[i].get("kind"):
+            continue
         if any(l[0] == "cplx" and l[1][3] and l[1][3][0][0] == "NoSuchParticle" for l in cases[i]["opt"]) or not any(l[0] == "event" for l in cases[i]["opt"]):
             continue
         msg = oracle(cases[i], impl[i])
